@@ -201,7 +201,7 @@ def gen_cases(ctx, K):
                             if p in "cz":
                                 v = (v, math.ldexp(rng.choice([0.0, 0.5, -1.0]), rs[i] + cs[j]))
                             ents.append((i, j, v))
-                    nrhs = rng.randint(1, 2)
+                    nrhs = rng.randint(1, 3)
                     def bval():
                         x = rnd_val(rng, p, -3, 3, mant=3)
                         return (x, rnd_val(rng, p, -3, 3, mant=3)) if p in "cz" else x
@@ -211,7 +211,8 @@ def gen_cases(ctx, K):
                     C0 = [math.ldexp(1.0, rng.randint(-4, 4)) for _ in range(n)]
                     cases.append({"kind": "gssvx", "p": p, "gen": "%s/%s" % (fact, mk), "n": n, "ents": ents,
                                   "stype": K["SLU_" + rng.choice(["NC", "NR"])], "fact": K[fact],
-                                  "trans": K[rng.choice(["NOTRANS", "TRANS", "CONJ"])], "equed": eq0, "R": R0, "C": C0, "B": B, "nrhs": nrhs})
+                                  "trans": K[rng.choice(["NOTRANS", "TRANS", "CONJ"])], "equed": eq0, "R": R0, "C": C0, "B": B, "nrhs": nrhs,
+                                  "ldbx": rng.choice([0, 0, 1, 3]), "ldxx": rng.choice([0, 0, 2, 5])})
     return cases
 
 
@@ -232,8 +233,8 @@ def c_line(c):
             hx(c["rowcnd"]), hx(c["colcnd"]), hx(c["amax"]))
     if c["kind"] == "gssvx":
         bs = ",".join(("%s:%s" % (hx(x[0]), hx(x[1])) if cplx else hx(x)) for col in c["B"] for x in col)
-        return "%s gssvx %s n=%d nrhs=%d ents=%s stype=%d fact=%d trans=%d equed=%d R=%s C=%s B=%s" % (
-            c["id"], c["p"], c["n"], c["nrhs"], es, c["stype"], c["fact"], c["trans"], c["equed"],
+        return "%s gssvx %s n=%d nrhs=%d ldbx=%d ldxx=%d ents=%s stype=%d fact=%d trans=%d equed=%d R=%s C=%s B=%s" % (
+            c["id"], c["p"], c["n"], c["nrhs"], c.get("ldbx", 0), c.get("ldxx", 0), es, c["stype"], c["fact"], c["trans"], c["equed"],
             ",".join(map(hx, c["R"])), ",".join(map(hx, c["C"])), bs)
     return "%s lamch %s" % (c["id"], c["p"])
 
@@ -515,6 +516,8 @@ def evaluate(ctx, cases, coq, cres, K, count=True):
             if count:
                 ctx.corr("Coq float instance vs C (bit for bit): %s%s" % (c["p"], c["kind"]))
         orc = oracle(c, r, K)
+        if c["kind"] == "gssvx" and str(r.get("pad", "0")) not in ("0", "None"):
+            orc = (orc or []) + ["%s padding entries of B/X beyond row n (leading dimensions n+%d, n+%d) were modified" % (r.get("pad"), c.get("ldbx", 0), c.get("ldxx", 0))]
         if d2 or (d1 and c["p"] in "sc"):
             findings.append(("impl-differs-from-model", c, {"coq_vs_c": d2, "port_vs_c": d1, "oracle": orc, "c": r}))
         elif d3 or d1:
